@@ -1,8 +1,126 @@
-//! C20 runner (stub). Replace the body; keep the signature `pub fn run(args: &[String])`.
-#[allow(unused_imports)]
-use crate::common::{catch, each_line, opt_i64};
+//! C20: derived JSON / equality / ordering / hashing / clone.
+//!
+//! `vharness run c20 table` — one line per case: `<model|class> <D1,D2,...|->`. Runs the REAL
+//!   lexer, parser, type checker, lowering (`lower_model`/`lower_class` + `extract_derives`) and
+//!   emitter (`emit_struct`) on a declaration carrying `@derive(D1, D2, ...)` and prints the names
+//!   of the `#[derive(...)]` attribute of the emitted struct, in order, comma separated
+//!   (`serde::Serialize` -> `Serialize`), or `ERR <message>`.
+//! `vharness run c20 gen` — one line per case: `<source.incn>\t<out_dir>\t<project_name>`. Runs the
+//!   library pipeline of `incan build` (src/cli/commands.rs prepare_project, single-file branch) up
+//!   to and including `ProjectGenerator::generate`, i.e. writes Cargo.toml + src/main.rs, and prints
+//!   `OK serde=<bool>` or `ERR <message>`. cargo is run by the check script (offline, shared target).
+use crate::common::{catch, each_line};
+use incan::{lexer, parser, IrCodegen, ProjectGenerator};
 
-pub fn run(_args: &[String]) {
-    eprintln!("c20: runner not implemented");
-    std::process::exit(2);
+fn errs(stage: &str, es: &[incan::diagnostics::CompileError]) -> String {
+    let mut s = format!("{}:", stage);
+    for e in es {
+        s.push(' ');
+        s.push_str(&e.message);
+        s.push(';');
+    }
+    s
+}
+
+/// source -> (rust code, needs_serde, needs_tokio, needs_axum)
+fn compile(source: &str) -> Result<(String, bool, bool, bool), String> {
+    let tokens = lexer::lex(source).map_err(|e| errs("lex", &e))?;
+    let ast = parser::parse(&tokens).map_err(|e| errs("parse", &e))?;
+    // same order as prepare_project
+    let mut tc = incan::typechecker::TypeChecker::new();
+    tc.check_with_imports(&ast, &[]).map_err(|e| errs("typecheck", &e))?;
+    let mut cg = IrCodegen::new();
+    cg.scan_for_serde(&ast);
+    cg.scan_for_async(&ast);
+    cg.scan_for_web(&ast);
+    cg.scan_for_list_helpers(&ast);
+    let (s, t, a) = (cg.needs_serde(), cg.needs_tokio(), cg.needs_axum());
+    let code = cg.try_generate(&ast).map_err(|e| format!("codegen: {}", e))?;
+    Ok((code, s, t, a))
+}
+
+fn derive_names_of(code: &str, struct_name: &str) -> Result<Vec<String>, String> {
+    let file = syn::parse_file(code).map_err(|e| format!("emitted Rust does not parse: {}", e))?;
+    for item in &file.items {
+        if let syn::Item::Struct(st) = item {
+            if st.ident == struct_name {
+                let mut names = Vec::new();
+                for attr in &st.attrs {
+                    if attr.path().is_ident("derive") {
+                        let paths = attr
+                            .parse_args_with(syn::punctuated::Punctuated::<syn::Path, syn::Token![,]>::parse_terminated)
+                            .map_err(|e| format!("derive attribute does not parse: {}", e))?;
+                        for p in paths {
+                            if let Some(seg) = p.segments.last() {
+                                names.push(seg.ident.to_string());
+                            }
+                        }
+                    }
+                }
+                return Ok(names);
+            }
+        }
+    }
+    Err(format!("struct {} not emitted", struct_name))
+}
+
+fn table_case(line: &str) -> String {
+    let mut it = line.split_whitespace();
+    let kind = it.next().unwrap_or("model");
+    let ds = it.next().unwrap_or("-");
+    let list: Vec<&str> = if ds == "-" { vec![] } else { ds.split(',').collect() };
+    let mut src = String::new();
+    if !list.is_empty() {
+        src.push_str(&format!("@derive({})\n", list.join(", ")));
+    }
+    src.push_str(&format!("{} M:\n    x: int\n", kind));
+    if list.iter().any(|d| *d == "Validate") {
+        src.push_str("\n    def validate(self) -> Result[M, str]:\n        return Ok(self)\n");
+    }
+    src.push_str("\ndef main() -> None:\n    pass\n");
+    match catch(|| compile(&src)) {
+        Ok(Ok((code, _, _, _))) => match derive_names_of(&code, "M") {
+            Ok(n) => n.join(","),
+            Err(e) => format!("ERR {}", e),
+        },
+        Ok(Err(e)) => format!("ERR {}", e),
+        Err(p) => format!("ERR panic: {}", p),
+    }
+}
+
+fn gen_case(line: &str) -> String {
+    let p: Vec<&str> = line.split('\t').collect();
+    if p.len() < 3 {
+        return "ERR bad case line".to_string();
+    }
+    let (src_path, out_dir, name) = (p[0], p[1], p[2]);
+    let source = match std::fs::read_to_string(src_path) {
+        Ok(s) => s,
+        Err(e) => return format!("ERR read: {}", e),
+    };
+    match catch(|| compile(&source)) {
+        Ok(Ok((code, serde, tokio, axum))) => {
+            let mut g = ProjectGenerator::new(out_dir, name, true);
+            g.set_needs_serde(serde);
+            g.set_needs_tokio(tokio);
+            g.set_needs_axum(axum);
+            match g.generate(&code) {
+                Ok(()) => format!("OK serde={}", serde),
+                Err(e) => format!("ERR generate: {}", e),
+            }
+        }
+        Ok(Err(e)) => format!("ERR {}", e),
+        Err(p) => format!("ERR panic: {}", p),
+    }
+}
+
+pub fn run(args: &[String]) {
+    match args.first().map(|s| s.as_str()).unwrap_or("") {
+        "table" => each_line(table_case),
+        "gen" => each_line(gen_case),
+        other => {
+            eprintln!("c20: unknown mode {:?} (table|gen)", other);
+            std::process::exit(2);
+        }
+    }
 }
